@@ -2,6 +2,7 @@
 with harness/vm/bcdump.c built against /repo's current tree, run the extracted verifier and the
 shape-machine lock-step (build/ocaml/verifier/run) on it."""
 import glob
+import atexit
 import hashlib
 import os
 import re
@@ -70,6 +71,7 @@ class VmTools:
             raise common.BuildError("ocaml build failed:\n" + log[-3000:])
         self.vrun = os.path.join(common.BUILD, "ocaml", "verifier", "run")
         self.tmp = tempfile.mkdtemp(prefix="nvvm.", dir="/var/tmp")
+        atexit.register(self.close)      # also when a check ends through an exception or returns early
 
     def close(self):
         shutil.rmtree(self.tmp, ignore_errors=True)
